@@ -255,3 +255,23 @@ struct FileContent {
     content: String,
     is_remote: bool,
 }
+
+/// Verification hook (feature `verif-hooks`, off by default): entry counts of the VFS maps.
+/// `file_data` slots never shrink by design; the number of occupied slots is reported instead.
+#[cfg(feature = "verif-hooks")]
+impl Vfs {
+    pub fn verif_sizes(&self) -> Vec<(&'static str, usize)> {
+        vec![
+            ("vfs.file_id_map", self.file_id_map.len()),
+            ("vfs.file_path_map", self.file_path_map.len()),
+            ("vfs.remote_file_id_map", self.remote_file_id_map.len()),
+            ("vfs.file_data.slots", self.file_data.len()),
+            (
+                "vfs.file_data.occupied",
+                self.file_data.iter().filter(|d| d.is_some()).count(),
+            ),
+            ("vfs.line_index_map", self.line_index_map.len()),
+            ("vfs.tree_map", self.tree_map.len()),
+        ]
+    }
+}
